@@ -3,6 +3,7 @@ package main
 import (
 	"bytes"
 	"fmt"
+	"strconv"
 	"math/rand"
 
 	"golang.org/x/image/font/sfnt"
@@ -409,7 +410,8 @@ func genPost(s *sink, tlcCases string) {
 	// large counts.  At most 65278 strings can be addressed by a format-2 table (indices 258..65535);
 	// golang.org/x/image reads indices up to 32767 only and is asked up to 6000 glyphs (linear scan per name).
 	type big struct{ n, custom int; xi bool }
-	bigs := []big{{3000, 1500, true}, {5000, 5000, true}}
+	// 32509 / 32510 / 32511 custom names: the last index is 32766 / 32767 / 32768 (16-bit sign boundary)
+	bigs := []big{{3000, 1500, true}, {5000, 5000, true}, {32509, 32509, false}, {32530, 32510, false}, {32511, 32511, false}}
 	if vio.Thorough() {
 		bigs = append(bigs, big{20000, 20000, false}, big{40000, 33000, false}, big{65535, 65278, false}, big{65535, 300, false}, big{65278, 65278, false})
 	}
@@ -417,7 +419,7 @@ func genPost(s *sink, tlcCases string) {
 		var names [][]int
 		for j := 0; j < b.n; j++ {
 			if j < b.custom {
-				names = append(names, ints([]byte(fmt.Sprintf("~%x", j))))
+				names = append(names, ints([]byte("~"+strconv.FormatInt(int64(j), 36))))
 			} else {
 				names = append(names, st[j%258])
 			}
